@@ -49,6 +49,8 @@ def run(ctx):
                         "three file contents; caps -> identities by storage index, immutable files by reading them back)",
                         "allmydata.dirnode.time rebound to a pinned clock, one tick per request",
                         "one gateway, one request at a time, all storage servers up (k=1, n=2 on 2 servers)",
+                        "between full observations (every 8th request and the last one of a history) a directory or mutable file whose "
+                        "share files did not change on any server is not read again; every full observation cross-checks the kept answers",
                         "writes are made with write-caps all the way (read-only refusals: C41; here only three probes)"]
     c1 = {"RawNames": '{"a", "e2"}', "SlotKinds": '{"absent", "file", "dir", "mfile"}' if q else '{"absent", "file", "dir", "mfile", "rodir"}',
           "StartDirs": '{"d1"}' if q else '{"d1", "d2"}', "MaxOps": 1, "Small": "TRUE" if q else "FALSE"}
@@ -79,6 +81,11 @@ def run(ctx):
         ctx.count(json.dumps([slim(e) for e in evs], sort_keys=True) if (made and conflict and (inplace or moved)) else None)
         ctx.count(None, n=len(evs) - 1)
     ctx.sample({"src": traces[0]["src"], "events": [slim(e) for e in traces[0]["events"][5:11]]})
+    stale = sum(t.get("stale", 0) for t in traces)
+    if stale:
+        # an object whose share files did not change answered differently at a full observation: the listings the driver kept
+        # between full observations were not the server's
+        ctx.report("observation:stale_answer", "%d answers of read requests changed although no share file of the object had changed" % stale)
     ctx.notes.append("%d histories + %d probes, %d judged requests, %d HTTP requests in all (observation included)" % (
         sum(1 for t in traces if not probe_of(t)), sum(1 for t in traces if probe_of(t)), sum(len(t["events"]) for t in traces), reqs))
     ctx.trace("frontends/TraceWebOps", traces, batch=200, workers=4,
